@@ -57,6 +57,12 @@ def one_scenario(ctx, base, entry, rng, tier, stats, manual=True):
             plans.append({"kind": "hook", "hook": h, "at": i, "exc": rng.choice(EXCS)})
         for x in (rng.sample(EXCS, 2) if tier == "quick" else EXCS):
             plans.append({"kind": "hook", "hook": h, "at": "always", "exc": x})
+    if entry.startswith("a") and base.get("bs_kind") == "async" and total.get("before_sleep"):
+        # an `async def` hook whose CALL raises (argument binding), at each invocation
+        nbs = total["before_sleep"]
+        for i in list(range(min(nbs, 3))) + ["always"]:
+            plans.append({"kind": "hook", "hook": "before_sleep", "at": i, "exc": "TypeError", "when": "call"})
+            ctx.inc("plans_with_an_async_hook_failing_when_called")
     for f in plans:
         sc = dict(base, fault=f)
         recs, h, _ = rig.run(sc, entry, manual=manual)
@@ -169,6 +175,7 @@ def conclude(ctx):
     for s in ("metric:retry", "metric:success", "metric:aborted", "metric:scheduled", "metric:max_attempts_exceeded", "metric:permanent_fail", "metric:deadline_exceeded", "metric:budget_exhausted",
               "metric:circuit_opened", "metric:circuit_rejected", "metric:circuit_half_open", "metric:circuit_closed", "before_sleep"):
         floors["site:" + s] = (ctx.cnt.get("site:" + s, 0), 5)
+    floors["plans_with_an_async_hook_failing_when_called"] = (ctx.cnt["plans_with_an_async_hook_failing_when_called"], 20)
     for x in EXCS:
         floors["exc:" + x] = (ctx.cnt.get("exc:" + x, 0), 10)
     return dict(
